@@ -60,8 +60,14 @@ func renderVals(h *hostapi.Host, vals []lua.LValue) string {
 	return strings.Join(parts, ",")
 }
 
+// second one-shot error of a two-fault run (set around runVM; the worker is single-threaded)
+var raise2At int64
+
 func runVM(proto *lua.FunctionProto, bodies []string, sched [][]float64, who []int, kind int, at int64, maxSteps int64, o lua.Options, withCtx bool) (res *vmSched) {
 	h := hostapi.NewHost(hostapi.Options{LuaOptions: o, Kind: kind, At: at, MaxSteps: maxSteps, WithContext: withCtx})
+	if raise2At > 0 {
+		h.Kind2, h.At2 = hostapi.VRaise, raise2At
+	}
 	res = &vmSched{h: h}
 	L := h.L
 	out := h.RunProto(proto)
@@ -384,6 +390,68 @@ func (e *Engine) driverA(t *core.Tape, cfg *core.Config, st *core.Stats, enumSch
 		}
 		return nil
 	}
+	// two one-shot errors, the second in the same or in a later resume
+	var acc2 map[uint64]bool
+	var acc2Runs int64
+	getAcc2 := func() map[uint64]bool {
+		if acc2 != nil {
+			return acc2
+		}
+		acc2 = map[uint64]bool{}
+		for h := range getAcc() {
+			acc2[h] = true // the second point may lie past the end of the run
+		}
+		orders := []bool{false}
+		if prog.MultiAssign {
+			orders = []bool{false, true}
+		}
+		for _, rtl := range orders {
+			for m1 := int64(1); m1 <= free.Steps; m1++ {
+				r1 := model.RunSchedule(prog, bodies, sched, who, model.Options{FaultKind: model.FaultRaise, FaultAt: m1, StoreRTL: rtl, MaxSteps: 400000})
+				for m2 := m1 + 1; m2 <= r1.Steps; m2++ {
+					r := model.RunSchedule(prog, bodies, sched, who, model.Options{FaultKind: model.FaultRaise, FaultAt: m1, Fault2Kind: model.FaultRaise, Fault2At: m2, StoreRTL: rtl, MaxSteps: 400000})
+					acc2[model.HashTrace(normTrace(r.Trace), "")] = true
+					acc2Runs++
+				}
+			}
+		}
+		return acc2
+	}
+	check2 := func(k1, k2 int64) *core.Violation {
+		raise2At = k2
+		r := runVM(proto, bodies, sched, who, hostapi.VRaise, k1, S*4+150000, o, withCtx)
+		raise2At = 0
+		st.Evals++
+		st.Steps += r.steps
+		if !r.h.Fired2 {
+			return nil
+		}
+		st.D(model.HashTrace(r.trace, ""))
+		fired++
+		st.Fault("raise@k+raise@k")
+		where := fmt.Sprintf("one-shot errors at instruction indexes %d and %d of %d", k1, k2, S)
+		var v *core.Violation
+		switch {
+		case r.escaped != "":
+			v = core.Violationf("escape", "%s: Go panic left the Go API: %s\n%s", where, r.escaped, descS())
+		case r.h.Runaway:
+			st.Probe("long_fault_path_discarded")
+		case len(r.h.Violations) > 0:
+			v = core.Violationf(vclass(r.h.Violations[0]), "%s: %s\n%s", where, r.h.Violations[0], descS())
+		case !getAcc2()[model.HashTrace(normTrace(r.trace), "")]:
+			v = core.Violationf("two-fault-transcript-not-acceptable", "%s: the transcript is none of the %d the model coroutines produce with two aborts at any pair of micro-steps (%d model runs)\nimplementation:\n%sfault-free:\n%s%s", where, len(getAcc2()), acc2Runs, show(r.trace), show(free.Trace), descS())
+		}
+		if v != nil {
+			v.Aux = []int64{k1, k2}
+		}
+		return v
+	}
+	if len(cfg.Aux) >= 2 {
+		if cfg.Aux[0] < 1 || cfg.Aux[1] <= cfg.Aux[0] {
+			return nil
+		}
+		return check2(cfg.Aux[0], cfg.Aux[1])
+	}
 	if len(cfg.Aux) >= 1 {
 		k := (cfg.Aux[0]-1)%S + 1
 		if k <= r0.chunkSteps {
@@ -407,6 +475,33 @@ func (e *Engine) driverA(t *core.Tape, cfg *core.Config, st *core.Stats, enumSch
 		if v := check(k); v != nil {
 			v.Aux = []int64{k}
 			return v
+		}
+	}
+	if lim := int64(110); (free.Steps <= lim || cfg.Thorough && free.Steps <= 2*lim) && enumSched < 0 && S > r0.chunkSteps+1 {
+		st.Probe("two_fault_schedule")
+		span := S - r0.chunkSteps
+		n1 := span
+		if n1 > 30 {
+			n1 = 30
+		}
+		for i := int64(0); i < n1; i++ {
+			k1 := r0.chunkSteps + 1 + i*span/n1
+			r1 := runVM(proto, bodies, sched, who, hostapi.VRaise, k1, S*4+150000, o, withCtx)
+			st.Evals++
+			if !r1.fired || r1.h.Runaway || r1.escaped != "" {
+				continue
+			}
+			span2 := r1.steps - k1
+			n2 := span2
+			if n2 > 16 {
+				n2 = 16
+			}
+			for j := int64(0); j < n2; j++ {
+				k2 := k1 + 1 + (j*span2/n2+int64(t.Pos())%3)%span2
+				if v := check2(k1, k2); v != nil {
+					return v
+				}
+			}
 		}
 	}
 	st.DistinctW(uint64(core.NewHash().Str(src).Str(fmt.Sprint(who, sched))), fired+1)
